@@ -268,8 +268,12 @@ def _replay_known(sc, pid, spec, known, known_hits):
         if w and not reproduced:
             rs = next((r for r in spec["runs"] if r["harness"] == w["harness"]), None)
             if rs:
-                _, reports, _ = _rerun_case(sc, rs, w["ops"])
-                reproduced = any(_match_known(pid, _oracle_name(rep), rep, {"findings": [k]}) for rep in reports)
+                # a witness that depends on how the kernel splits reads may need several attempts ("attempts" in the entry)
+                for _ in range(int(w.get("attempts", 1))):
+                    _, reports, _ = _rerun_case(sc, rs, w["ops"])
+                    reproduced = any(_match_known(pid, _oracle_name(rep), rep, {"findings": [k]}) for rep in reports)
+                    if reproduced:
+                        break
         if reproduced:
             lines.append("KNOWN-FINDING: property=%s %s" % (pid, k["what"]))
         else:
